@@ -51,6 +51,9 @@ def record(jp, env, q, doc, edoc, extra=None, kept=None, kept_label="query compi
             res["jp"] = isinstance(err, jp.JSONPathError)
         return res
 
+    # another instance of the same class, configured differently ON THE INSTANCE, uses the text first - through every entry point
+    if len(q) < 300:
+        impl._sibling_first(jp, env, q)
     results = []
     mod_is_env = env is None
     e = jp.DEFAULT_ENV if mod_is_env else env
@@ -135,6 +138,14 @@ def run(chk: core.Check, tier: str, seed: int) -> None:
         for want in (0, 1, 2):
             d = {"want": want, "on": want, "items": [{"v": 0}, {"v": 1}, {"v": 2}, {"v": 1}]}
             recs.append(record(jp, fresh, q, d, core.enc_value(d)))
+    # indices and slices that have to be normalised, on arrays of every small length, through every entry point (a shortcut for
+    # singular queries in one entry point must do the arithmetic of the others)
+    for n_el in range(0, 4):
+        arr = list("abc"[:n_el])
+        for d in (arr, {"a": arr}, [arr, "xy"]):
+            ed = core.enc_value(d)
+            for q in ("$[-3]", "$[-1]", "$[-4]", "$[2]", "$[-2]", "$.a[-3]", "$.a[-1]", "$[0][-3]", "$[0][-1]", "$[1][0]", "$[1][-1]", "$[-2][-2]"):
+                recs.append(record(jp, fresh if n_el % 2 else None, q, d, ed))
     # a compiled query that is KEPT while the caller edits the document in place between uses is one more entry point: it must
     # answer for the document as it is now, like the module functions, the environment and a freshly compiled query do
     for env in (fresh, None):
